@@ -66,7 +66,8 @@ class ProjectionRegister:
     def register_projector(self, projector):
         self.__projectors.add(projector)
         carrier_item = projector.item._solsys_carrier
-        if carrier_item is not None:
+        # Carrier which is not loaded is not registered as solar system item
+        if carrier_item is not None and carrier_item._is_loaded:
             self.__carrier_projectors.add_data_entry(carrier_item, projector)
         else:
             self.__carrierless_projectors.add(projector)
@@ -76,8 +77,8 @@ class ProjectionRegister:
         carrier_item = projector.item._solsys_carrier
         if carrier_item is not None:
             self.__carrier_projectors.rm_data_entry(carrier_item, projector)
-        else:
-            self.__carrierless_projectors.discard(projector)
+        # Projector could have been moved here when its carrier was unloaded
+        self.__carrierless_projectors.discard(projector)
 
     def apply_projector(self, projector, tgt_items):
         self.__projector_tgts.add_data_set(projector, tgt_items)
